@@ -94,4 +94,77 @@ theorem step_auth {cfg : Config} {s : State} (hI : Inv cfg s) (op : Op) :
     · exact Or.inl ⟨p, hxs ▸ hp, e⟩
     · exact Or.inr (Or.inr h)
 
+/-! ## the credential table changes in its password fields only -/
+
+/-- everything of a credential record but the password -/
+def UProj (u : User) : Bytes × Option Json × Bool × Bool := (u.name, u.auth, u.readonly, u.admin)
+
+theorem setPassword_proj (us : List User) (name pw : Bytes) : (setPassword us name pw).map UProj = us.map UProj := by
+  unfold setPassword
+  rw [List.map_map]
+  apply List.map_congr_left
+  intro u _
+  simp only [Function.comp]
+  split <;> rfl
+
+theorem AuthEff.users_proj {cfg : Config} {s s' : State} {c : Nat} {req : Json} (h : AuthEff cfg s c req s') :
+    s'.users.map UProj = s.users.map UProj := by
+  rcases h with h | ⟨_, _, _, _, _, _, _, _, hu, _⟩ | ⟨name, pw, _, hu⟩
+  · rw [h.1]
+  · rw [hu]
+  · rw [hu, setPassword_proj]
+
+theorem Unit.users_proj {cfg : Config} {u : Unit} (h : u.authEff cfg) :
+    (u.post cfg).st.users.map UProj = u.pre.st.users.map UProj := by
+  cases u with
+  | req x c j => exact AuthEff.users_proj h
+  | close x c => have := h.1; exact congrArg _ this
+  | timeout x t => have := h.1; exact congrArg _ this
+
+theorem chain_users {cfg : Config} {x x' : Ctx} {us : List Unit} (hc : Chain cfg x us x') (hI : FInv cfg x.st) :
+    x'.st.users.map UProj = x.st.users.map UProj := by
+  induction hc with
+  | nil x => rfl
+  | cons hrest ih =>
+    rename_i u us x'
+    obtain ⟨hpost, _, heff⟩ := unit_good cfg u hI
+    exact (ih hpost).trans (Unit.users_proj heff)
+
+theorem step_users {cfg : Config} {s : State} (hI : Inv cfg s) (op : Op) :
+    (step cfg s op).1.users.map UProj = s.users.map UProj := by
+  cases hx : opCtx s op with
+  | none =>
+    obtain ⟨_, _, h3⟩ := step_noctx cfg s op hx
+    rcases h3 with h3 | ⟨c, ws, il, a, _, _, h3⟩
+    · rw [h3]
+    · rw [h3]
+  | some x =>
+    obtain ⟨x', hch, hs⟩ := step_chain cfg s op x hx
+    have hxs : x.st = s := by
+      cases op with
+      | connect c ws il a => cases hx
+      | message c msg o =>
+        simp only [opCtx] at hx
+        split at hx
+        · cases hx
+        · cases hx; rfl
+      | disconnect c o =>
+        simp only [opCtx] at hx
+        split at hx
+        · cases hx
+        · cases hx; rfl
+      | timerFire t o => cases hx; rfl
+    rw [hs]
+    have := chain_users hch (hxs ▸ hI.f)
+    rw [hxs] at this
+    exact this
+
+theorem run_users {cfg : Config} (ops : List Op) (s : State) (hI : Inv cfg s) :
+    (run cfg s ops).1.users.map UProj = s.users.map UProj := by
+  induction ops generalizing s with
+  | nil => rfl
+  | cons op rest ih =>
+    unfold run
+    exact (ih _ (step_inv cfg s op hI).1).trans (step_users hI op)
+
 end Cjet.Daemon.C08
